@@ -92,8 +92,13 @@ def step (s : St) (j : Json) : Except String (St × Json × List Fired) := do
       match e with
       | .arr #[a, b, c] => pure ((← asStr a), (← asInt b), (← asInt c))
       | _ => throw "bad feed"
-    let fired := (feedsSpecViolations s.p s.st il).map fun n => ({ name := "current_feeds_" ++ n, detail := out } : Fired)
-    pure (s, mkObj [("feeds", feedsJson feeds)], fired)
+    let mut fired := (feedsSpecViolations s.p s.st il).map fun n => ({ name := "current_feeds_" ++ n, detail := out } : Fired)
+    -- the list is what the chain STORES after the end-blocker of an update block, stamped with that block
+    let h := (jint j "height").toOption.getD 0
+    let lub := (jint out "lastUpdateBlock").toOption.getD h
+    if lub != h then
+      fired := fired ++ [{ name := "current_feeds_not_recomputed_in_update_block", detail := mkObj [("height", ji h), ("lastUpdateBlock", ji lub)] }]
+    pure (s, mkObj [("feeds", feedsJson feeds), ("err", js ""), ("lastUpdateBlock", ji h)], fired)
   | "reimport" =>
     -- genesis export → validate → import on a store branch: the totals recomputed from the votes are the chain's totals
     let mut fired : List Fired := []
